@@ -7,7 +7,7 @@
                        ([eval] reduces intermediate results with Qred, hence Qeq and not eq);
      qsum l            the sum of a list of rationals. *)
 From Coq Require Import QArith List Bool PArith Arith Permutation.
-From PV Require Import Base.PyData Base.Expr C05.Model C05.ToCs C05.Proofs.
+From PV Require Import Base.PyData Base.Expr C05.Model C05.ToCs C05.Access C05.Proofs.
 Import ListNotations.
 Local Open Scope nat_scope.
 
@@ -311,3 +311,31 @@ Theorem odes_rest_equations : forall g a,
   length ne = length (order g) /\ NoDup (nth_leq ne a) /\
   (forall x, In x (nth_leq ne a) <-> In x (out_term g a ++ input_terms g a)).
 Proof. exact rest_equations_lemma. Qed.
+
+(* ---- Round 4: flow accessors (model C05/Access.v) ----------------------------------------------------------------------- *)
+(* For every well-formed graph (hence every system the builder can make) and every node u of it:
+   get_compartment_outflows(u) is exactly the stored adjacency of u (successors in insertion order, each with
+   the rate get_flow returns for it) *)
+Theorem outflows_spec : forall g u, WF g -> In u (nodes g) ->
+  outflows g u = adj_of g u /\ (forall v r, In (v, r) (outflows g u) -> get_flow g u v = r).
+Proof. exact outflows_lemma. Qed.
+
+(* get_compartment_inflows(v) lists exactly the nodes that have an edge to v, each with the rate of that edge
+   (v may be output) *)
+Theorem inflows_spec : forall g v u r, WF g ->
+  (In (u, r) (inflows g v) <-> In u (nodes g) /\ adj_lookup (adj_of g u) v = Some r).
+Proof. exact inflows_lemma. Qed.
+
+(* the two accessors describe the same set of flows: (v, r) is an outflow of u iff (u, r) is an inflow of v *)
+Theorem out_in_duality : forall g u v r, WF g -> In u (nodes g) ->
+  (In (v, r) (outflows g u) <-> In (u, r) (inflows g v)).
+Proof. exact out_in_duality_lemma. Qed.
+
+(* get_bidirectionals(c): exactly the nodes with a flow to c and a flow from c *)
+Theorem bidirectionals_spec : forall g c u, WF g ->
+  (In u (bidirectionals g c) <-> In u (nodes g) /\ has_edge g u c = true /\ has_edge g c u = true).
+Proof. exact bidirectionals_lemma. Qed.
+
+(* len(cs) is the number of compartments *)
+Theorem cs_len_spec : forall g, WF g -> cs_len g = length (comps g).
+Proof. exact cs_len_lemma. Qed.
